@@ -274,7 +274,7 @@ func (s *Sim) park(t *Task) {
 func (s *Sim) enabled(t *Task) bool {
 	switch t.op {
 	case opSend:
-		return t.c != nil && (t.c.closed || len(t.c.buf) < t.c.cap || s.pendingRecv(t.c, t) != nil)
+		return t.c != nil && (t.c.closed || len(t.c.buf) < t.c.cap || (len(t.c.buf) == 0 && s.pendingRecv(t.c, t) != nil))
 	case opRecv:
 		return t.c != nil && (len(t.c.buf) > 0 || t.c.closed || s.pendingSend(t.c, t) != nil)
 	case opSelect:
@@ -304,7 +304,7 @@ func (s *Sim) caseEnabled(t *Task, c *Case) bool {
 		return false
 	}
 	if c.send {
-		return c.c.closed || len(c.c.buf) < c.c.cap || s.pendingRecv(c.c, t) != nil
+		return c.c.closed || len(c.c.buf) < c.c.cap || (len(c.c.buf) == 0 && s.pendingRecv(c.c, t) != nil)
 	}
 	return len(c.c.buf) > 0 || c.c.closed || s.pendingSend(c.c, t) != nil
 }
